@@ -1,0 +1,7 @@
+//go:build !verif
+
+package gcsutil
+
+func verifYield(string, func() bool) {}
+
+func (m *countedLock) verifFree() bool { return true }
